@@ -1049,4 +1049,115 @@ func jobprobe(in json.RawMessage, res *vh.Result) error {
 	return nil
 }
 
-func main() { vh.Main(map[string]vh.Mode{"replay": replay, "jobprobe": jobprobe}) }
+// subfailprobe: addSubscription (hub add + Broker.Subscribe, with rollback of the hub entry when the broker call
+// fails) is one critical section under the channel's subLock in SubLifecycle.tla. The probe parks the first
+// subscriber's Broker.Subscribe, starts a second connection's subscribe to the same channel, then makes the first
+// call fail. Afterwards a local subscriber must imply a broker subscription.
+func subfailprobe(in json.RawMessage, res *vh.Result) error {
+	var cfg struct {
+		N int `json:"n"`
+	}
+	_ = json.Unmarshal(in, &cfg)
+	if cfg.N == 0 {
+		cfg.N = 3
+	}
+	for i := 0; i < cfg.N; i++ {
+		env, err := cl.NewEnv(centrifuge.Config{LogLevel: centrifuge.LogLevelNone})
+		if err != nil {
+			return err
+		}
+		gb, err := cl.NewGateBroker(env.Node)
+		if err != nil {
+			return err
+		}
+		env.Node.SetBroker(gb)
+		ch := fmt.Sprintf("sf%d_%d", vh.Seed(), i)
+		gate := cl.NewGate()
+		var mu sync.Mutex
+		var calls []string
+		first := true
+		gb.SubscribeErr = func(c string) error {
+			if c != ch {
+				return nil
+			}
+			mu.Lock()
+			isFirst := first
+			first = false
+			mu.Unlock()
+			if isFirst {
+				gate.Arrive(10 * time.Second)
+				mu.Lock()
+				calls = append(calls, "sub-fail")
+				mu.Unlock()
+				return fmt.Errorf("verif: broker subscribe failed")
+			}
+			mu.Lock()
+			calls = append(calls, "sub")
+			mu.Unlock()
+			return nil
+		}
+		gb.OnUnsubscribe = func(c string) {
+			if c == ch {
+				mu.Lock()
+				calls = append(calls, "unsub")
+				mu.Unlock()
+			}
+		}
+		if err := env.Run(); err != nil {
+			return err
+		}
+		a, _ := env.NewConn("a", centrifuge.ProtocolTypeJSON)
+		b, _ := env.NewConn("b", centrifuge.ProtocolTypeJSON)
+		a.Connect()
+		b.Connect()
+		aDone := make(chan error, 1)
+		go func() { aDone <- a.Client.Subscribe(ch) }()
+		if !gate.WaitArrived(3 * time.Second) {
+			res.Drift("C26", "first subscriber did not reach Broker.Subscribe", nil)
+			env.Close()
+			continue
+		}
+		bDone := make(chan error, 1)
+		go func() { bDone <- b.Client.Subscribe(ch) }()
+		early := false
+		select {
+		case <-bDone:
+			early = true
+		case <-time.After(150 * time.Millisecond):
+		}
+		gate.Release()
+		<-aDone
+		if !early {
+			select {
+			case <-bDone:
+			case <-time.After(3 * time.Second):
+				res.Drift("C26", "second subscribe did not finish", nil)
+			}
+		}
+		time.Sleep(20 * time.Millisecond)
+		mu.Lock()
+		cs := append([]string(nil), calls...)
+		mu.Unlock()
+		local := env.Node.Hub().NumSubscribers(ch) > 0
+		brokerSub := false
+		for _, c := range cs {
+			switch c {
+			case "sub":
+				brokerSub = true
+			case "unsub":
+				brokerSub = false
+			}
+		}
+		replay := map[string]any{"scenario": "first subscriber parked in Broker.Subscribe; second connection subscribes; first Broker.Subscribe fails", "broker_calls": cs, "second_subscribe_finished_early": early}
+		if local && !brokerSub {
+			res.Violate("C26", "probe:subscriber-registered-while-first-broker-subscribe-failed", fmt.Sprintf("a connection is subscribed locally (reports subscribed=%v) but the node never subscribed successfully in the broker (calls %v)", b.Client.IsSubscribed(ch), cs), replay)
+		}
+		res.Distinct(fmt.Sprintf("subfail-%d", i))
+		res.Sample(replay)
+		res.Done(1, 1)
+		env.Close()
+	}
+	return nil
+}
+
+func main() { vh.Main(map[string]vh.Mode{"replay": replay, "jobprobe": jobprobe, "subfailprobe": subfailprobe}) }
